@@ -469,6 +469,16 @@ func checkC09(r *Run) {
 	checkFreshFrame(r, rdr, "fresh-frame")
 	checkFreshFrame(r, p.Fn("p9p:(*conn).read"), "fresh-frame")
 	checkDispatchTable(r, "dispatch")
+	// "all of them complete": the client's single owner loop delivers replies with plain sends; those never block
+	// (and so never stall every other caller) only because the per-request channels are buffered
+	for _, f := range []string{"field:fcallRequest.response", "field:fcallRequest.err"} {
+		ok, why := chanFieldAlwaysBuffered(p, f)
+		var pos token.Pos
+		if sf := p.Fn("p9p:(*transport).send"); sf != nil {
+			pos = sf.Pos()
+		}
+		r.Check(ok, "buffered-reply", f+" always created with capacity >= 1", pos, why)
+	}
 	// Tread clamp in the dispatcher: the buffer length never exceeds msize-11 when positive and is never negative (bounds rule)
 	n := dischargeBounds(r, h, "bounds", nil)
 	r.Floor("bounds", n, 2, "obligations in the dispatcher")
